@@ -152,6 +152,18 @@ class Ctx:
                          'verdict': r.verdict, 'paths': r.paths})
         return results
 
+    # ------------------------------------------------------------------ lemmas
+    def lemma(self, fn, name):
+        """Run an E2 lemma.  A lemma whose subject has been restructured away (the pattern it encodes is no longer where
+        the encoder looks) is inconclusive, not an alarm and not a crash: the E1 conditions of the same check decide."""
+        try:
+            fn(self)
+        except (AttributeError, KeyError, IndexError, TypeError, ValueError) as e:
+            self.obligation(engine='E2/z3', name=name, verdict='inconclusive',
+                            reason=f'lemma could not be encoded from the current source: {type(e).__name__}: {e}'[:300])
+            self.extra.setdefault('lemmas_not_encodable', []).append(name)
+            self.log(f'lemma {name} could not be encoded from the current source ({type(e).__name__}: {e}); inconclusive')
+
     # ------------------------------------------------------------------ z3 helper
     def z3_check(self, solver, name: str, timeout_ms: int = 60000):
         """Run solver.check(); account for it; return 'sat'|'unsat'|'unknown'."""
